@@ -1,3 +1,4 @@
+-- properties: C04 C11
 /-
   C04 / C11 — the AIFF / AIFF-C container (stand-alone L1 model SfModel/Aiff.lean; helpers SfProofs/Aiff*.lean).
   Property theorems only.
